@@ -1,64 +1,2 @@
-(* ManagerGen.v - GENERATED by harness/pytrans.py from the current source of
-   sqlalchemy_continuum/manager.py and sqlalchemy_continuum/operation.py.  Do not edit: the file is
-   rewritten on every build.  Proofs/ManagerGenP.v proves these definitions equal to the model. *)
-From Continuum Require Import Model.Base Model.VTable Model.Core Model.Manager.
-
-Definition mem {A} (l : list (nat * A)) (k : nat) : bool :=
-  match aget l k with Some _ => true | None => false end.
-
-Definition gen_OP_INSERT : Z := 0.
-
-Definition gen_OP_UPDATE : Z := 1.
-
-Definition gen_OP_DELETE : Z := 2.
-
-(* the kind of the operation stored for the target; `present` = the target already has an entry *)
-Definition gen_add_insert (present : bool) : Z := (if present then gen_OP_UPDATE else gen_OP_INSERT).
-
-Definition gen_add_delete (present : bool) : Z := gen_OP_DELETE.
-
-Section Gen.
-  Variable dbapi : nat -> nat.
-  Variable closed : nat -> bool.
-
-Definition gen_unit_of_work (U : list (nat * uow)) (M : list (nat * nat)) (session conn_of_session : nat)
-  : list (nat * uow) * list (nat * nat) :=
-  (let '(U, M) := (if (negb (existsb (fun p => Nat.eqb (snd p) conn_of_session) M)) then (let M := aset M session conn_of_session in
-   (U, M)) else (U, M)) in
-   (if (mem U conn_of_session) then (U, M) else (let U := aset U conn_of_session uow0 in
-   (U, M)))).
-
-Definition gen_clear (nested : bool) (U : list (nat * uow)) (M : list (nat * nat)) (session : nat)
-  : list (nat * uow) * list (nat * nat) :=
-  (if nested then (U, M) else (let popped := aget M session in let M := adel M session in
-   match popped with
-   | None => (U, M)
-   | Some conn => (let '(U, M) := (if (mem U conn) then (let U := adel U conn in
-   (U, M)) else (U, M)) in
-   (let '(U, M) := fold_left (fun st connection => let '(U, M) := st in (let '(U, M) := (if ((closed connection) || (Nat.eqb (dbapi conn) (dbapi connection))) then (let U := adel U connection in
-   (U, M)) else (U, M)) in
-   (U, M))) (map fst U) (U, M) in
-   (U, M)))
-   end)).
-
-Definition gen_clear_connection (U : list (nat * uow)) (M : list (nat * nat)) (conn : nat)
-  : list (nat * uow) * list (nat * nat) :=
-  (let '(U, M) := (if (mem U conn) then (let U := adel U conn in
-   (U, M)) else (U, M)) in
-   (let '(U, M) := fold_left (fun st entry => let session := fst entry in let connection := snd entry in let '(U, M) := st in (let '(U, M) := (if (Nat.eqb connection conn) then (let M := adel M session in
-   (U, M)) else (U, M)) in
-   (U, M))) M (U, M) in
-   (let '(U, M) := fold_left (fun st connection => let '(U, M) := st in (let '(U, M) := (if ((closed connection) || (Nat.eqb (dbapi conn) (dbapi connection))) then (let U := adel U connection in
-   (U, M)) else (U, M)) in
-   (U, M))) (map fst U) (U, M) in
-   (U, M)))).
-
-Definition gen_track_cloned_connections (U : list (nat * uow)) (M : list (nat * nat)) (c : nat)
-  : list (nat * uow) * list (nat * nat) :=
-  (let '(U, M) := (if (negb (mem U c)) then (let '(U, M) := fold_left (fun st entry => let connection := fst entry in let uow := snd entry in let '(U, M) := st in (let '(U, M) := (if ((negb (closed connection)) && (Nat.eqb (dbapi connection) (dbapi c))) then (let U := aset U c uow in
-   (U, M)) else (U, M)) in
-   (U, M))) U (U, M) in
-   (U, M)) else (U, M)) in
-   (U, M)).
-
-End Gen.
+(* ManagerGen.v - the translator REFUSED the current source: forget_savepoints touches session_connection_map *)
+Definition translator_refused : unit := the_source_left_the_supported_subset.
